@@ -4,9 +4,9 @@ package main
 // implementation (spec overlay), label by label.
 
 import (
-	"os"
 	"crypto/sha1"
 	"fmt"
+	"os"
 	"sort"
 	"strings"
 
@@ -150,8 +150,13 @@ func compareSummaries(p *Program, code, spec *Summary) *equivResult {
 			if len(cl.Exits) != len(sl.Exits) {
 				fail("L%d: %d early exits in the code, %d in the reference", i, len(cl.Exits), len(sl.Exits))
 			} else {
-				matchUnordered(len(cl.Exits), func(a, b int) bool { ok, _ := eq(inLoop(code, i, cl.Exits[a]), inLoop(spec, i, sl.Exits[b])); return ok },
-					func(a int) { cmp(fmt.Sprintf("L%d.exit%d", i, a), inLoop(code, i, cl.Exits[a]), inLoop(spec, i, sl.Exits[a])) })
+				matchUnordered(len(cl.Exits), func(a, b int) bool {
+					ok, _ := eq(inLoop(code, i, cl.Exits[a]), inLoop(spec, i, sl.Exits[b]))
+					return ok
+				},
+					func(a int) {
+						cmp(fmt.Sprintf("L%d.exit%d", i, a), inLoop(code, i, cl.Exits[a]), inLoop(spec, i, sl.Exits[a]))
+					})
 				r.Labels += len(cl.Exits)
 			}
 		}
